@@ -200,13 +200,15 @@ def build_harness(name, sources, flavor="asan", extra=(), libs=("interrogatedb",
     try:
         if os.path.exists(out) and os.path.exists(stamp) and open(stamp).read() == digest:
             return out
+        tmp = out + ".tmp%d" % os.getpid()
         cmd = [fl["cxx"], "-std=gnu++17"] + fl["flags"].split() + b.includes() + list(extra) + \
-            ["-o", out] + srcs + libs_p + fl["ldflags"].split()
+            ["-o", tmp] + srcs + libs_p + fl["ldflags"].split()
         if out_kind == "so":
             cmd += ["-shared", "-fPIC"]
         r = _sh(cmd)
         if r.returncode != 0:
             raise HarnessError(f"harness {name} failed to build:\n" + r.stdout[-6000:])
+        os.replace(tmp, out)
         open(stamp, "w").write(digest)
     finally:
         fcntl.flock(lock, fcntl.LOCK_UN)
